@@ -21,7 +21,7 @@ func TestVerifC14Sockets(t *testing.T) {
 	type job struct{ test, name, spec, out string }
 	var jobs []job
 	for round := 0; round < rounds; round++ {
-		for _, tn := range [][2]string{{"TestVerifC10Child", "peers-closed-first"}, {"TestVerifC09Child", "peer-closed-first"}} {
+		for _, tn := range [][2]string{{"TestVerifC10Child", "peers-closed-first"}, {"TestVerifC09Child", "peer-closed-first"}, {"TestVerifC09Child", "write-fails-with-message-in-hand"}, {"TestVerifC10Child", "write-timed-out-before-stop"}} {
 			spec := fmt.Sprintf("%s %d", tn[1], r.U64()%1000000007)
 			jobs = append(jobs, job{tn[0], tn[1], spec, fmt.Sprintf("%s/verif_c14s_%d_%d.out", os.TempDir(), os.Getpid(), len(jobs))})
 		}
